@@ -540,7 +540,12 @@ func c02Cookie(c *Ctx, key []byte, real, host, ip, at string, realExp int64, now
 		}
 		return now.Unix() < lim, false
 	}
-	switch c.T.Choose(23) {
+	switch c.T.Choose(24) {
+	case 23:
+		// the genuine cookie with a string terminator and more text behind it: the field as a
+		// whole is not a token this gateway minted
+		tail := []string{"x", ".AAAA", "=", real, "\x00x", " "}[c.T.Choose(6)]
+		return cookieTrial{kind: "real+NUL+tail", cookie: real + "\x00" + tail}
 	case 22:
 		// under the right key, unexpired, right issuer, but without an access token the provider
 		// could honour: the claim is missing, empty or null
